@@ -9,10 +9,13 @@ import (
 	"verif/harness/internal/cborx"
 
 	"github.com/ipfs/go-cid"
+	ipld "github.com/ipld/go-ipld-prime"
 	"github.com/ipld/go-ipld-prime/datamodel"
 	"github.com/ipld/go-ipld-prime/fluent/qp"
 	cidlink "github.com/ipld/go-ipld-prime/linking/cid"
 	"github.com/ipld/go-ipld-prime/node/basicnode"
+	"github.com/ipld/go-ipld-prime/node/bindnode"
+	"github.com/ipld/go-ipld-prime/schema"
 	selectorparse "github.com/ipld/go-ipld-prime/traversal/selector/parse"
 	"github.com/libp2p/go-libp2p/core/peer"
 	mh "github.com/multiformats/go-multihash"
@@ -88,8 +91,51 @@ func NodeOrNull(r *rand.Rand, depth int) datamodel.Node {
 }
 
 // Voucher generates a typed voucher with an arbitrary IPLD body.
+// One voucher in six is a schema-typed node (a Go struct bound to an IPLD schema type, the way
+// applications define vouchers) whose representation - what DAG-CBOR carries - differs from its
+// type-level view: a tuple, or a map with renamed keys.
 func Voucher(r *rand.Rand, typ string) datatransfer.TypedVoucher {
+	if r.Intn(6) == 0 {
+		return datatransfer.TypedVoucher{Type: datatransfer.TypeIdentifier(typ), Voucher: TypedNode(r)}
+	}
 	return datatransfer.TypedVoucher{Type: datatransfer.TypeIdentifier(typ), Voucher: Node(r, 2)}
+}
+
+type receipt struct {
+	Amount int64
+	Memo   string
+	Paid   bool
+}
+
+type ticket struct {
+	Seat  string
+	Price int64
+}
+
+var typedSchema = func() *schema.TypeSystem {
+	ts, err := ipld.LoadSchemaBytes([]byte(`
+		type Receipt struct {
+			Amount Int
+			Memo   String
+			Paid   Bool
+		} representation tuple
+		type Ticket struct {
+			Seat  String (rename "s")
+			Price Int    (rename "p")
+		}
+	`))
+	if err != nil {
+		panic(err)
+	}
+	return ts
+}()
+
+// TypedNode generates a schema-typed (bindnode) value.
+func TypedNode(r *rand.Rand) datamodel.Node {
+	if r.Intn(2) == 0 {
+		return bindnode.Wrap(&receipt{Amount: r.Int63n(1 << 40), Memo: fmt.Sprintf("memo-%d", r.Intn(1000)), Paid: r.Intn(2) == 0}, typedSchema.TypeByName("Receipt"))
+	}
+	return bindnode.Wrap(&ticket{Seat: fmt.Sprintf("row-%d", r.Intn(100)), Price: r.Int63n(10000)}, typedSchema.TypeByName("Ticket"))
 }
 
 // SimpleVoucher is a small list voucher (like the repo's test voucher).
